@@ -217,6 +217,7 @@ def run_case(ctx, res, p):
         res.oracle_fail(f"fit raised {exc_class(e)}: {str(e)[:80]}", p, signature="C02:fit:" + exc_class(e))
         return
     res.count("gp=" + str(est.gp_type).split(".")[-1])
+    res.count("optimizer=" + str(p["gp_kwargs"].get("optimizer", "none(arbitrary latent)")))
     z = np.asarray(est.pre_transformation, float)
     if p["estimator"] == "dim":
         ld = np.asarray(est.local_dim_x, float)
@@ -239,8 +240,8 @@ CONFIGS = ["full", "full_nystroem", "sparse_cholesky", "sparse_kmeans", "sparse_
            "inferred", "full+landmarks=", "full+landmarks>", "full_nystroem+landmarks"]
 
 
-def gen_case(rng, latent):
-    est = ["density", "density", "time", "dim"][rng.integers(4)]
+def gen_case(rng, latent, est=None, cfg=None, unc=None):
+    est = est or ["density", "density", "time", "dim"][rng.integers(4)]
     n, d = 24, 2
     X, _ = gen_points(rng, n, d, kind=["plain", "clustered"][rng.integers(2)], scale=1.0)
     n_obs = n
@@ -248,7 +249,7 @@ def gen_case(rng, latent):
         tt = np.repeat(np.arange(3.0), 8)[rng.permutation(n)]
         X = np.c_[X, tt]
         n_obs = n / 3
-    cfg = CONFIGS[rng.integers(len(CONFIGS))]
+    cfg = cfg or CONFIGS[rng.integers(len(CONFIGS))]
     gp, Xu = {}, None
     m = 6
     dd = X.shape[1]
@@ -279,6 +280,10 @@ def gen_case(rng, latent):
         Xu = lm(n + int(rng.integers(0, 3))); gp = dict(rank=[0.9, 3][rng.integers(2)])
     if latent == "fit":
         gp["optimizer"] = "L-BFGS-B"
+        if unc if unc is not None else rng.random() < 0.3:
+            # uncertainty options must not change what the predictor's mean reproduces: ADVI fit with the latent standard
+            # deviations handed to the predictor
+            gp.update(optimizer="advi", predictor_with_uncertainty=True, n_iter=12)
     return {"op": "fit", "estimator": est, "config": cfg, "gp_kwargs": gp, "X": X, "Xu": Xu,
             "kernel": ["M52", "M32", "EQ"][rng.integers(3)], "jitter": loguniform(rng, 1e-6, 1e-3),
             "ls": loguniform(rng, 0.5, 2.0) if rng.random() < 0.7 else None, "ls_time": loguniform(rng, 0.5, 2.0),
@@ -293,6 +298,10 @@ def run(ctx, res):
     budget = ctx["budget"] or (75 if quick else 600)
     t_end = time.time() + budget
     mellon()
+    # fixed plan: ADVI fits with predictor uncertainty, one per model type (and per estimator for the rank-reduced full type)
+    for est_, cfg_ in (("density", "full_nystroem"), ("time", "full_nystroem"), ("dim", "full_nystroem"), ("density", "full"),
+                       ("density", "sparse_cholesky"), ("density", "sparse_nystroem"), ("density", "fixed=")):
+        run_case(ctx, res, gen_case(rng, "fit", est=est_, cfg=cfg_, unc=True))
     i = 0
     while time.time() < t_end:
         run_case(ctx, res, gen_case(rng, "fit" if i % 6 == 5 else "arbitrary"))
